@@ -64,7 +64,7 @@ Section CommitShows.
     destruct (proj2 (proj1 Hch) _ _ Hin) as [_ Hpd].
     destruct Hl as [(v & H1 & H2 & H3 & H4)|(Hva & Hnd & Hnu)].
     - pose proof (upd_live _ _ _ _ _ _ cs_spec H1 H2) as Hink. split.
-      + intros ->. rewrite (in_lookup _ _ _ (proj1 (proj1 Hch)) Hin) in *.
+      + intros ->.
         pose proof (in_lookup _ _ _ (proj1 (proj1 Hch)) Hink) as E1. pose proof (in_lookup _ _ _ (proj1 (proj1 Hch)) Hin) as E2.
         rewrite E1 in E2. injection E2 as ->. congruence.
       + intros Hb. exact (proj2 Hch _ _ _ _ Hink H2 Hin Hd Hb).
@@ -100,8 +100,10 @@ Section World.
                   <| c_committed := i |> <| c_inline := [] |> <| c_ainline := aview overlay C |>);
      EPutProp (t, i) (P <| p_commit := Some Done |>)].
   Proof.
-    intros HP HC Ec Ea Eb Hcm. unfold p2_reconcile. cbn [Proto2.reconcile]. unfold Proto2.rec_prop.
-    rewrite HP, Ea, Eb, Ec, HC, Hcm, N.eqb_refl. reflexivity.
+    intros HP HC Ec Ea Eb Hcm. unfold p2_reconcile. cbn [Proto2.reconcile]. unfold Proto2.rec_prop. cbv beta iota zeta.
+    unfold dstate in *.
+    match goal with |- context [match ?x with Some _ => _ | None => ([], RDone) end] => replace x with (Some P) by (symmetry; exact HP) end.
+    rewrite Ea, Eb, Ec, HC, Hcm, N.eqb_refl. reflexivity.
   Qed.
 
   (* ... and the configuration entry after at least the two configuration writes *)
@@ -119,7 +121,7 @@ Section World.
               resync_payload doc_ok stamp [] [] [] o w (CtlProp (t, i))) with (p2_reconcile o w (CtlProp (t, i))) in HC'.
     rewrite (commit_effects o w t i P C HP HC Ec Ea Eb Hcm) in HC'.
     rewrite (cfg_fold dev_apply [] _ t w C HC) in HC'. injection HC' as <-.
-    destruct n as [|[|[|n]]]; try lia; cbn [firstn fold_left cfg_on]; rewrite !N.eqb_refl; reflexivity.
+    destruct n as [|[|[|n]]]; try lia; cbn [firstn]; rewrite ?firstn_nil; cbn [fold_left cfg_on]; rewrite !N.eqb_refl; reflexivity.
   Qed.
 
   Theorem commit_contains_change (w : Wd) t i n (o : oracle) (P : Prop2) (C C' : Cfg) c :
